@@ -108,7 +108,7 @@ func main() {
 		defer os.RemoveAll(base)
 		// ---- stores
 		var stores []storeT
-		names := []string{"s0", "s1", "s2"}
+		names := []string{"s0", "s1", "s2", "S1"} // (S1 and s1 are two stores: names are compared exactly)
 		for _, nm := range names {
 			for _, t := range types {
 				if rng.Intn(3) == 0 {
@@ -229,6 +229,9 @@ func main() {
 		}
 		// ---- statements
 		scopes := [][]string{{"reg.io/a"}, {"reg.io/b"}, {"*"}}
+		if ci%2 == 1 { // statements scoped to several repositories, the artifact's not in first place
+			scopes = [][]string{{"reg.io/x", "reg.io/a"}, {"reg.io/y", "reg.io/z", "reg.io/b"}, {"*"}}
+		}
 		k := 1 + rng.Intn(3)
 		perm := rng.Perm(3)
 		var sts []trustpolicy.OCITrustPolicy
@@ -242,7 +245,7 @@ func main() {
 				if rng.Intn(6) == 0 {
 					t = "tsa"
 				}
-				nm := append(names, "missing")[rng.Intn(4)]
+				nm := append(append([]string(nil), names...), "missing")[rng.Intn(len(names)+1)]
 				list = append(list, t+":"+nm)
 				if rng.Intn(6) == 0 {
 					list = append(list, t+":"+nm) // duplicate
